@@ -53,16 +53,28 @@ func (o *orderSequenceByDependencies) nodeByFetchID(id int, root *resolve.FetchT
 }
 
 func (o *orderSequenceByDependencies) nodeDependsOn(node, root *resolve.FetchTreeNode) []int {
+	result := o.collectDependencies(node, root, map[int]struct{}{o.nodeFetchID(node): {}})
+	slices.Sort(result)
+	result = slices.Compact(result)
+	return result
+}
+
+// collectDependencies gathers the transitive dependencies of node. visited holds the fetch IDs on the
+// current path: a dependency cycle (which a well-formed plan never contains) must not recurse forever.
+func (o *orderSequenceByDependencies) collectDependencies(node, root *resolve.FetchTreeNode, visited map[int]struct{}) []int {
 	dependencies := node.Item.Fetch.Dependencies().DependsOnFetchIDs
 	result := make([]int, 0, len(dependencies))
 	for _, dep := range dependencies {
 		result = append(result, dep)
+		if _, seen := visited[dep]; seen {
+			continue
+		}
 		if child := o.nodeByFetchID(dep, root); child != nil {
-			result = append(result, o.nodeDependsOn(child, root)...)
+			visited[dep] = struct{}{}
+			result = append(result, o.collectDependencies(child, root, visited)...)
+			delete(visited, dep)
 		}
 	}
-	slices.Sort(result)
-	result = slices.Compact(result)
 	return result
 }
 
